@@ -598,7 +598,7 @@ def judge(run, c, il, ml, stats):
         if why is None and has_pbo and kind in ("info", "loadFile") and f[0] not in BAD:
             # C17's need: an entry is readable under the archive's prefix, bytes unchanged
             cr = cleanse(c["req"])
-            L = Spec.lexical(vsegs(cr)) if cr.startswith("/") and not cr.endswith("/") else None
+            L = Spec.lexical(vsegs(cr)) if cr.startswith("/") else None
             want = None
             for st in c["setup"]:
                 if st[0] == "P" and st[2] is not None and L is not None and want is None:
